@@ -3,7 +3,7 @@
     after the repairs `fix: indexserver cleanup: tombstone unassigned repos in compound shards even when
     they also have simple shards` and `fix: indexserver cleanup: keep compound shards that still serve
     other repositories when shard merging is disabled`).  Proofs: Proofs/CleanupProofs.v. *)
-From ZV Require Import Lib.Base Model.Cleanup Proofs.CleanupProofs Proofs.CleanupUnassigned Proofs.CleanupTrash Proofs.CleanupRevive Proofs.CleanupRestore Proofs.CleanupFailure Proofs.CleanupFailure2.
+From ZV Require Import Lib.Base Model.Cleanup Proofs.CleanupProofs Proofs.CleanupUnassigned Proofs.CleanupTrash Proofs.CleanupRevive Proofs.CleanupRestore Proofs.CleanupFailure Proofs.CleanupFailure2 Proofs.CleanupAllOrNothing.
 Open Scope Z_scope.
 
 (** assigned_kept (FULL).  For every well-formed index directory, every assigned list, every time and both
@@ -82,6 +82,64 @@ Theorem C32_assigned_restored_from_trash_other_renames_may_fail : forall d repos
   (forall t', In t' (d_trash (cleanup_f d repos now sm mvfail)) -> f_base t' <> f_base t).
 Proof. intros. eapply assigned_restored_from_trash_f; eauto. Qed.
 Print Assumptions C32_assigned_restored_from_trash_other_renames_may_fail.
+
+(** moveAll is ALL-OR-NOTHING under any rename failures (first, second or any later shard), from any directory
+    state: for the simple shards [g] of one repository (distinct file names; the destination holds no file of these
+    names — restore: the repository is not in the index; trashing: its trashed copies went in the first phase), after
+    moveAll's loop ([moves], the code cleanup_f runs for every restore / trashing) EITHER no rename failed and every
+    shard of [g] is at the destination with the content it had at the source and none is left at the source, OR a
+    rename failed and no shard of [g] is left anywhere — never a strict subset at the destination (a partially
+    restored repository would answer searches with part of its files; a partial copy in the trash would be restored
+    as such).  Files of other names are untouched in both directories.  [srcd]/[dstd] = trash/index for a restore
+    ([ti] = true), index/trash for trashing.  This is what `shards[i] = dstShard` is for: without it
+    ([moves_forgetful], Example below) the shards moved before the failure stay at the destination. *)
+Theorem C32_moveAll_all_or_nothing_any_rename_failure : forall mvfail now ti id g x,
+  (forall s, In s g -> s_compound s = false) ->
+  NoDup (map s_base g) ->
+  (forall s, In s g -> find_file (s_base s) (dstd ti x) = None) ->
+  let x' := fold_left (apply now) (moves mvfail ti id [] g) x in
+  (forall b, in_bases b g = false ->
+     find_file b (srcd ti x') = find_file b (srcd ti x) /\ find_file b (dstd ti x') = find_file b (dstd ti x)) /\
+  ((any_fail mvfail ti g = false /\
+    forall s, In s g -> find_file (s_base s) (srcd ti x') = None /\
+                        find_file (s_base s) (dstd ti x') = find_file (s_base s) (srcd ti x)) \/
+   (any_fail mvfail ti g = true /\
+    forall s, In s g -> find_file (s_base s) (srcd ti x') = None /\ find_file (s_base s) (dstd ti x') = None)).
+Proof. exact moveAll_all_or_nothing. Qed.
+Print Assumptions C32_moveAll_all_or_nothing_any_rename_failure.
+
+(** Non-vacuity + the contrast: a three-shard repository in the trash, the rename of its SECOND shard fails. The
+    modelled moveAll leaves nothing in index and trash; the forgetful fallback leaves shard 1 live in the index. *)
+Example C32_moveAll_second_shard_fails :
+  map f_base (d_index (fold_left (apply 0) (moves_forgetful aon_fail2 true [aon_s 1; aon_s 2; aon_s 3]) aon_dir)) = [1%N] /\
+  d_index (fold_left (apply 0) (moves aon_fail2 true 7 [] [aon_s 1; aon_s 2; aon_s 3]) aon_dir) = [] /\
+  d_trash (fold_left (apply 0) (moves aon_fail2 true 7 [] [aon_s 1; aon_s 2; aon_s 3]) aon_dir) = [].
+Proof. exact moves_forgetful_partial. Qed.
+
+(** ... lifted to the whole cleanup for the restore direction: a FAILED restore drops the repository completely.
+    If the rename of any trashed shard of an assigned repository in [trash_keys] fails (the first, the second, any
+    later one — [any_fail]) then after cleanup_f NO file with the name of any of its trashed simple shards [t] exists,
+    neither in the index nor in the trash ([no_name]): never a strict subset of its shards live in the index, never a
+    partial copy left in the trash.  (Its shards: distinct simple shard files.  Together with
+    [C32_assigned_restored_from_trash_other_renames_may_fail]: restored completely when none of its renames fails.)
+    No duplicate-freeness of [repos] is needed here. *)
+Theorem C32_failed_restore_drops_whole_repository : forall d repos now sm mvfail t e id,
+  wf d -> wf_trash d -> In t (d_trash d) -> alive_entries t = [e] -> e_id e = id ->
+  In id repos -> In id (trash_keys d now) ->
+  (forall s, In s (group (get_shards (d_trash d)) id) -> s_compound s = false) ->
+  NoDup (map s_base (group (get_shards (d_trash d)) id)) ->
+  any_fail mvfail true (group (get_shards (d_trash d)) id) = true ->
+  (forall g, In g (d_index (cleanup_f d repos now sm mvfail)) -> f_base g <> f_base t) /\
+  (forall g, In g (d_trash (cleanup_f d repos now sm mvfail)) -> f_base g <> f_base t).
+Proof. intros. eapply failed_restore_drops_all; eauto. Qed.
+Print Assumptions C32_failed_restore_drops_whole_repository.
+
+Example C32_failed_restore_nonvacuous :
+  In 7%N (trash_keys aon_dir 0) /\ any_fail aon_fail2 true (group (get_shards (d_trash aon_dir)) 7) = true /\
+  any_fail aon_fail2 true (firstn 1 (group (get_shards (d_trash aon_dir)) 7)) = false /\
+  cleanup_f aon_dir [7%N] 0 true aon_fail2 = mkD [] [] 0 /\
+  map f_base (d_index (cleanup_f aon_dir [7%N] 0 true (fun _ _ => false))) = [1%N; 2%N; 3%N].
+Proof. vm_compute. repeat split; try reflexivity. left. reflexivity. Qed.
 
 (** unassigned_not_searchable_after: for every well-formed directory, every assigned set and both settings
     of shardMerging, no repository outside the assigned set is alive in any index shard after cleanup
